@@ -82,3 +82,14 @@ Theorem C15_tables_are_x680 :
   forall t b c, In t [NumericString; PrintableString; VisibleString; IA5String] ->
     x680_alphabet t c = Some b -> existsb (N.eqb c) (character_set t) = b.
 Proof. exact Proofs.C15.table_is_x680. Qed.
+
+(* an extensible permitted-alphabet constraint -- `(FROM ("a".."c"), ...)` -- is not PER-visible (X.691 10.3.10): alone it
+   yields no annotation, next to other constraints it contributes nothing (a closed alphabet was emitted until the fix of
+   C15-extensible-from-emitted) *)
+Theorem C15_extensible_alone_no_annotation :
+  forall fuel t s, alphabet_annotation fuel t [{| cset := s; cext := true |}] = Ok None.
+Proof. exact Proofs.C15.extensible_alone_no_annotation. Qed.
+
+Theorem C15_extensible_ignored :
+  forall fuel t s cs, collect fuel t ({| cset := s; cext := true |} :: cs) = collect fuel t cs.
+Proof. exact Proofs.C15.extensible_ignored. Qed.
